@@ -591,4 +591,222 @@ example : (Class.leaf { ranges := [(97, 99)] }).isMergeable = true ∧ (Class.le
     (Class.minus { ranges := [(97, 99)] } (.leaf {})).isMergeable = false ∧
     (({ ranges := [(97, 99)] } : Flat).addSet toyCat false { cats := [(2, false)] }) = { ranges := [(97, 99)], cats := [(2, false)] } := by decide
 
+/-- **`GetSetChars`: a non-nil answer lists exactly the members — exactly the NON-members when
+`IsNegated`** — with the subtraction factored in (a negated class with a subtraction is refused), at most
+`maxChars` of them, in strictly ascending order on canonical ranges.  These lists become the published
+first-character sets, the multi-prefix alternatives and the `IndexOfAny` arguments of the finders (C04/C03). -/
+theorem getSetChars_spec (cat : Nat → Nat → Bool) (c : Class) (k : Nat) (chars : List Nat)
+    (hl : Class.RangesOk c) (hb : BitmapOk cat c) (h : getSetChars cat c k = some chars) :
+    chars.length ≤ k ∧ (∀ r, r ∈ chars ↔ (memAlg cat c r != c.isNegated) = true) ∧
+      (Canon c.flat.ranges → chars.Pairwise (· < ·)) := by
+  obtain ⟨hc, hns, hlen, hch⟩ := getSetChars_some cat c k chars h
+  refine ⟨hlen, fun r => ?_, fun hcan => hch ▸ enumChars_sorted _ _ hcan⟩
+  rw [hch, mem_enumChars, charIn_eq_memAlg cat c r hl hb]
+  cases c with
+  | leaf f =>
+    simp only [Class.flat] at hc
+    simp only [Class.hasSubtraction, Class.hasSub, Class.flat, Class.isNegated, memAlg, Flat.memAlg, Flat.pos, hc,
+      inCats_nil, Bool.or_false, Bool.false_and, Bool.not_false, and_true]
+    cases inRanges f.ranges r <;> cases f.neg <;> simp
+  | minus f s =>
+    simp only [Class.flat] at hc
+    have hn : f.neg = false := by
+      cases hfn : f.neg
+      · rfl
+      · have := hns (by simp [Class.isNegated, Class.flat, hfn])
+        simp [Class.hasSubtraction, Class.hasSub] at this
+    simp only [Class.hasSubtraction, Class.hasSub, Class.flat, Class.isNegated, memAlg, Flat.memAlg, Flat.pos, hc, hn,
+      inCats_nil, Bool.or_false, Bool.true_and, Bool.not_not, Bool.bne_false]
+    cases inRanges f.ranges r <;> simp
+
+/-- `[a-e-[bd]]` → a, c, e; `[^x]` → x (to be read as "everything but"); a category, too many characters,
+negation together with subtraction → nil; work is counted before the subtraction is applied -/
+example : getSetChars toyCat (.minus { ranges := [(97, 101)] } (.leaf { ranges := [(98, 98), (100, 100)] })) 5 = some [97, 99, 101] ∧
+    getSetChars toyCat (.leaf { ranges := [(120, 120)], neg := true }) 5 = some [120] ∧
+    getSetChars toyCat (.leaf { ranges := [(120, 120)], cats := [(1, false)] }) 5 = none ∧
+    getSetChars toyCat (.leaf { ranges := [(97, 102)] }) 5 = none ∧
+    getSetChars toyCat (.minus { ranges := [(97, 101)], neg := true } (.leaf { ranges := [(98, 98)] })) 5 = none ∧
+    getSetChars toyCat (.minus { ranges := [(97, 101)] } (.leaf { ranges := [(98, 98), (100, 100)] })) 4 = none ∧
+    getSetChars toyCat (.leaf {}) 5 = some [] := by decide
+
+/-- **`GetIfNRanges(n)`: a non-nil answer is the whole range list, of length `n`, and the class is exactly
+those ranges — their complement when `IsNegated`** (no categories, no subtraction). -/
+theorem getIfNRanges_spec (cat : Nat → Nat → Bool) (c : Class) (n : Nat) (rs : List (Nat × Nat))
+    (h : getIfNRanges c n = some rs) :
+    rs = c.flat.ranges ∧ rs.length = n ∧ ∀ r, inRanges rs r = (memAlg cat c r != c.isNegated) := by
+  unfold getIfNRanges at h
+  split at h
+  · cases h
+  rename_i h1
+  split at h
+  · cases h
+  rename_i h2
+  split at h
+  · rename_i h3
+    simp only [Option.some.injEq] at h
+    have hrs : rs = c.flat.ranges := by rw [← h, ← h3, List.take_length]
+    refine ⟨hrs, by rw [hrs]; exact h3, fun r => ?_⟩
+    cases c with
+    | minus f s => simp [Class.hasSub] at h2
+    | leaf f =>
+      simp only [Class.flat, Bool.not_eq_true', List.isEmpty_iff, Bool.not_eq_false] at h1
+      have hc : f.cats = [] := by simpa using h1
+      simp only [hrs, Class.flat, Class.isNegated, memAlg, Flat.memAlg, Flat.pos, hc, inCats_nil, Bool.or_false]
+      cases inRanges f.ranges r <;> cases f.neg <;> rfl
+  · cases h
+
+example : getIfNRanges (.leaf { ranges := [(97, 102)], neg := true }) 1 = some [(97, 102)] ∧
+    getIfNRanges (.leaf { ranges := [(97, 102)] }) 2 = none ∧
+    getIfNRanges (.leaf { ranges := [(97, 102)], cats := [(1, false)] }) 1 = none ∧
+    getIfNRanges (.minus { ranges := [(97, 102)] } (.leaf {})) 1 = none := by decide
+
+/-- **`containsAsciiIgnoreCaseCharacter`: `true` ⇒ the class is exactly `{C, c}` for one ASCII letter**, and
+the slice it returns is `[C, c]` (upper case first: `TryGetOrdinalCaseInsensitiveString` writes
+`twoChars[0] | 0x20`, the multi-prefix analysis `setChars[1]`).  `isLetter` is `unicode.IsLetter`, assumed to
+be A-Z, a-z below U+007F (leg `Kq-facts`); the range list is canonical.  The published ordinal
+case-insensitive prefix is sound only because of this (cf. the seeded change C03-ascii-pair-nonletters: without
+the letter test `[@`]`, `[\[{]` would qualify). -/
+theorem containsAsciiIgnoreCaseCharacter_spec (cat : Nat → Nat → Bool) (isLetter : Nat → Bool) (c : Class)
+    (hl : Class.RangesOk c) (hb : BitmapOk cat c) (hcan : Canon c.flat.ranges)
+    (hL : ∀ r, r < maxASCII → isLetter r = asciiLetter r)
+    (h : (containsAsciiIgnoreCaseCharacter cat isLetter c).1 = true) :
+    ∃ u, 65 ≤ u ∧ u ≤ 90 ∧ (containsAsciiIgnoreCaseCharacter cat isLetter c).2 = some [u, u + 32] ∧
+      ∀ r, memAlg cat c r = true ↔ (r = u ∨ r = u + 32) := by
+  unfold containsAsciiIgnoreCaseCharacter at h ⊢
+  split at h
+  · cases h
+  rename_i hneg
+  simp only [hneg, Bool.false_eq_true, ↓reduceIte]
+  simp only [] at h
+  split at h
+  · rename_i a b hg
+    simp only [Bool.and_eq_true, decide_eq_true_eq, beq_iff_eq] at h
+    obtain ⟨⟨⟨⟨ha, hb'⟩, hor⟩, hla⟩, hlb⟩ := h
+    obtain ⟨_, hmem, hsorted⟩ := getSetChars_spec cat c 3 [a, b] hl hb hg
+    have hlt : a < b := by
+      have := hsorted hcan
+      simpa using this
+    rw [hL a ha] at hla
+    rw [hL b hb'] at hlb
+    obtain ⟨h1, h2, h3⟩ := ascii_pair a b hla hlb hlt hor
+    refine ⟨a, h1, h2, by rw [hg, h3], fun r => ?_⟩
+    have := hmem r
+    have hn : c.isNegated = false := by simpa using hneg
+    simp only [hn, Bool.bne_false, List.mem_cons, List.not_mem_nil, or_false] at this
+    rw [← this, h3]
+  · cases h
+
+/-- `[Kk]` qualifies, with the upper-case letter first; `[@`]` (same `| 0x20`, not letters), `[k]`, `[^Kk]`,
+`[Kkx]` do not -/
+example :
+    let isL : Nat → Bool := asciiLetter
+    containsAsciiIgnoreCaseCharacter toyCat isL (.leaf { ranges := [(75, 75), (107, 107)] }) = (true, some [75, 107]) ∧
+    (containsAsciiIgnoreCaseCharacter toyCat isL (.leaf { ranges := [(64, 64), (96, 96)] })).1 = false ∧
+    (containsAsciiIgnoreCaseCharacter toyCat isL (.leaf { ranges := [(107, 107)] })).1 = false ∧
+    containsAsciiIgnoreCaseCharacter toyCat isL (.leaf { ranges := [(75, 75), (107, 107)], neg := true }) = (false, none) ∧
+    (containsAsciiIgnoreCaseCharacter toyCat isL (.leaf { ranges := [(75, 75), (107, 107), (120, 120)] })).1 = false ∧
+    Canon [(75, 75), (107, 107)] := by
+  refine ⟨by decide, by decide, by decide, by decide, by decide, ?_⟩
+  simp [Canon]
+
+/-- **`IsUnicodeCategoryOfSmallCharCount`: `isSmall` ⇒ the characters are exactly the members — the
+non-members when `negated`.**  For the white-space classes this needs that `whitespaceChars` is the white-space
+category (checked by leg `Kq-facts` against `unicode.IsSpace` over all code points). -/
+theorem isUnicodeCategoryOfSmallCharCount_spec (cat : Nat → Nat → Bool) (k : Consts) (c : Class)
+    (hws : ∀ r, r ≤ maxRune → (r ∈ k.whitespaceChars ↔ cat k.space r = true))
+    (chars : List Nat) (negated : Bool) (d : Nat)
+    (h : isUnicodeCategoryOfSmallCharCount k c = some (chars, negated, d)) (r : Nat) (hr : r ≤ maxRune) :
+    r ∈ chars ↔ (memAlg cat c r != negated) = true := by
+  unfold isUnicodeCategoryOfSmallCharCount at h
+  split at h
+  · rename_i h1
+    obtain ⟨x, hx, hm⟩ := (singleton_reduce_mem cat c).1 h1
+    simp only [hx, Option.getD_some, Option.some.injEq, Prod.mk.injEq] at h
+    obtain ⟨rfl, rfl, _⟩ := h
+    simp [hm]
+  split at h
+  · rename_i h1
+    obtain ⟨x, hx, hm⟩ := (singleton_reduce_mem cat c).2 h1
+    simp only [hx, Option.getD_some, Option.some.injEq, Prod.mk.injEq] at h
+    obtain ⟨rfl, rfl, _⟩ := h
+    simp [hm]
+  split at h
+  · rename_i h1
+    simp only [Option.some.injEq, Prod.mk.injEq] at h
+    obtain ⟨rfl, rfl, _⟩ := h
+    rw [mem_of_equals_cat cat c k.space h1 r, hws r hr]
+    simp
+  split at h
+  · rename_i h1
+    simp only [Option.some.injEq, Prod.mk.injEq] at h
+    obtain ⟨rfl, rfl, _⟩ := h
+    rw [equals_spec cat c _ h1 r, hws r hr]
+    simp [Consts.notSpaceClass, memAlg, Flat.memAlg, Flat.pos, fromCategoryString, inCats, catAccepts]
+  · cases h
+
+example : isUnicodeCategoryOfSmallCharCount (srcConsts 0 1 2) (.leaf { cats := [(0, false)], neg := true }) =
+      some (RegexVerif.Generated.whitespaceChars, true, 1) ∧
+    isUnicodeCategoryOfSmallCharCount (srcConsts 0 1 2) (.leaf { ranges := [(65, 65)], neg := true }) = some ([65], true, 0) ∧
+    isUnicodeCategoryOfSmallCharCount (srcConsts 0 1 2) (.leaf { cats := [(2, false)] }) = none := by decide
+
+/-- **`GetIfOnlyUnicodeCategories`: a non-nil answer `(cats, negate)` reads "in one of the listed categories,
+xor `negate`" — when the entries are un-negated or there is exactly one.**  For SEVERAL negated entries the
+class is a union of complements while the answer reads as the complement of a union: see
+`getIfOnlyUnicodeCategories_two_negated`.  (No caller inside the engine.) -/
+theorem getIfOnlyUnicodeCategories_spec (cat : Nat → Nat → Bool) (k : Consts) (c : Class)
+    (cats : List (Nat × Bool)) (negate : Bool) (h : getIfOnlyUnicodeCategories k c = some (cats, negate))
+    (hshape : (∀ ct ∈ cats, ct.2 = false) ∨ cats.length = 1) (r : Nat) :
+    memAlg cat c r = (cats.any (fun ct => cat ct.1 r) != negate) := by
+  unfold getIfOnlyUnicodeCategories at h
+  split at h
+  · cases h
+  rename_i h1
+  split at h
+  · cases h
+  rename_i h2
+  split at h
+  · cases h
+  rename_i c0 rest hcs
+  simp only [] at h
+  split at h
+  · cases h
+  rename_i hall
+  simp only [Option.some.injEq, Prod.mk.injEq] at h
+  obtain ⟨rfl, rfl⟩ := h
+  cases c with
+  | minus f s => simp [Class.hasSub] at h1
+  | leaf f =>
+    simp only [Class.flat] at hcs h2 hall hshape ⊢
+    have hr : f.ranges = [] := by simpa using h2
+    simp only [memAlg, Flat.memAlg, Flat.pos, hr, inRanges_nil, Bool.false_or]
+    rcases hshape with hs | hs
+    · have key : ∀ (l : List (Nat × Bool)), (∀ ct ∈ l, ct.2 = false) → inCats cat l r = l.any (fun ct => cat ct.1 r) := by
+        intro l
+        induction l with
+        | nil => intro _; rfl
+        | cons x xs ih =>
+          intro hx
+          simp only [inCats_cons, List.any_cons, catAccepts]
+          rw [ih (fun ct hct => hx ct (List.mem_cons_of_mem _ hct)), hx x (List.mem_cons_self ..)]
+          simp
+      have := key f.cats hs
+      have h0 : c0.2 = false := hs c0 (by rw [hcs]; exact List.mem_cons_self ..)
+      rw [this, h0]; simp
+    · rw [hcs] at hs ⊢
+      have : rest = [] := by simpa using hs
+      subst this
+      simp only [inCats, catAccepts, List.any_cons, List.any_nil, Bool.or_false]
+      cases cat c0.1 r <;> cases c0.2 <;> cases f.neg <;> rfl
+
+/-- the counter-instance: `[\P{1}\P{2}]` (toy categories 1 = a-z, 2 = 0-9) contains every rune (none is in
+both), the answer `([\P{1}, \P{2}], negate = true)` read as "not in category 1 or 2" excludes `a` -/
+theorem getIfOnlyUnicodeCategories_two_negated :
+    getIfOnlyUnicodeCategories (srcConsts 0 100 2) (.leaf { cats := [(1, true), (2, true)] }) = some ([(1, true), (2, true)], true) ∧
+    memAlg toyCat (.leaf { cats := [(1, true), (2, true)] }) 97 = true ∧
+    (([(1, true), (2, true)] : List (Nat × Bool)).any (fun ct => toyCat ct.1 97) != true) = false := by decide
+
+example : getIfOnlyUnicodeCategories (srcConsts 0 100 2) (.leaf { cats := [(1, false), (2, false)], neg := true }) = some ([(1, false), (2, false)], true) ∧
+    getIfOnlyUnicodeCategories (srcConsts 0 100 2) (.leaf { cats := [(0, false)] }) = none ∧
+    getIfOnlyUnicodeCategories (srcConsts 0 100 2) (.leaf { cats := [(1, false), (2, true)] }) = none := by decide
+
 end RegexVerif.Props.C16
